@@ -284,6 +284,8 @@ class EngineSystem:
         return ms(self.loop.time() - self.t0)
 
     def log(self, rec):
+        if getattr(self, "_muted", False):
+            return
         ct = getattr(self, "_cur_tick", None)
         if ct is not None:
             if rec.get("e") == "pub":
@@ -344,6 +346,8 @@ class EngineSystem:
     # ---- life cycle
     def start(self, uid="s0", ctx=None):
         self.run_no += 1
+        if self.run_no > 1:
+            self.rig.live = {}         # bodies of an earlier run that are still parked at their gates are not this run's
         self.outcome = None
         self.stream_done = False
         self.consumers2 = 0            # further consumers attached while the run was live ...
@@ -527,12 +531,31 @@ class EngineSystem:
         except Exception as ex:  # noqa: BLE001
             return {"error": type(ex).__name__}
 
+    def abandon_run(self):
+        """The process that executed the current run is gone: its control loop, step bodies, timers and consumers are
+        dropped without a trace (nothing of it may act in the run resumed from the snapshot)."""
+        self._muted = True
+        try:
+            for t in asyncio.all_tasks(self.loop):
+                t.cancel()
+            self.loop.quiesce()
+            _RUNNERS.clear()
+        finally:
+            self._muted = False
+            self._cur_tick = None
+
     def resume_from(self, snap: dict):
+        self.abandon_run()
         ctx = Context.from_dict(self.wf, snap)
         self.rig.gates.clear()
         self.rig.gate_order.clear()
         self.cancelled = False
         self.start(ctx=ctx)
+        # the resumed run has started what the snapshot held: a quiescence point like the one after every command
+        self.log({"e": "quiet", "live": self.live_now(), "queued": self.queued_now(),
+                  "open": [list(k) for k in self.rig.open_gates()],
+                  "done": self.outcome is not None, "stream_done": self.stream_done,
+                  "consumers2": self.consumers2, "consumers2_done": self.consumers2_done})
 
     def drain(self, max_rounds=200):
         """Release every open gate until none is left (no time advance, no external input)."""
